@@ -27,7 +27,7 @@
    Property C11 as invariants over ghost observations of every handler invocation:
      NeverEarly, CountBound, OnlyNewConfig, AfterAtMostOnce, ArmedImpliesProgrammed,
    and as liveness: Fires (every armed unsuspended uncancelled timer's handler runs again). *)
-EXTENDS Integers, FiniteSets, TLC
+EXTENDS Integers, FiniteSets, TLC, TimerLaws    \* TimerLaws: INF, Mut, Heap, MinTarget, MinTimers, ComputeMissed, Boundaries
 
 CONSTANTS NTimers,      \* timer objects 1..NTimers
           AfterSet,     \* subset of 1..NTimers that are dispatch_after blocks, the others are timer sources
@@ -35,15 +35,13 @@ CONSTANTS NTimers,      \* timer objects 1..NTimers
           Horizon,      \* time stops advancing at Horizon (model bound)
           PastDelta,    \* set_timer / dispatch_after: start = now + d, d in -PastDelta..MaxDelta
           MaxDelta,     \*   (a start in the past, now, or ahead)
-          Intervals,    \* intervals for set_timer; INF = one-shot (DISPATCH_TIME_FOREVER)
+          Intervals,    \* intervals for set_timer; INF (constant of TimerLaws) = one-shot
           MaxCalls,     \* bound on client control calls (set_timer, suspend, resume, cancel)
-          MaxFire,      \* cap of the per-timer invocation counter used by the liveness property
-          Mut           \* "none" or a spec mutation
+          MaxFire       \* cap of the per-timer invocation counter used by the liveness property
 
 StartDeltas == (0 - PastDelta)..MaxDelta
 Timers == 1..NTimers
 Clocks == 1..NClocks
-INF == 1000                                   \* >= INT64_MAX in the code: never reached
 NoCfg == [clk |-> 1, target |-> INF, iv |-> INF, gen |-> 0]      \* dt_pending_config == NULL (gen: 0 none, 1 some)
 
 VARIABLES now,     \* [clock -> time]
@@ -94,10 +92,7 @@ Init == /\ now = [c \in Clocks |-> 0]
         /\ calls = 0 /\ viol = ""
 
 (* ------------------------------- the heap, abstractly ------------------------------- *)
-Heap(m, c) == {t \in Timers : m[t].armed /\ m[t].clk = c}
-MinOf(S) == CHOOSE x \in S : \A y \in S : x <= y
-MinTarget(m, c) == IF Heap(m, c) = {} THEN INF ELSE MinOf({m[t].tgt : t \in Heap(m, c)})
-MinTimers(m, c) == {t \in Heap(m, c) : m[t].tgt = MinTarget(m, c)}       \* dth_min[DTH_TARGET_ID] is one of them
+\* Heap(m, c), MinTarget(m, c), MinTimers(m, c): see TimerLaws
 
 \* effect of _dispatch_timer_heap_insert/remove/update + _dispatch_timers_heap_dirty on the flags:
 \* dth_needs_program is set when the minimum changes (TimerHeap.tla: NeedsProgramOnMinChange)
@@ -130,13 +125,7 @@ Configure(r) ==
                         !.pstale = IF Mut = "honour_old" THEN @ ELSE FALSE]
     IN IF r.armed THEN UnoteResume(r1) ELSE r1
 
-\* _dispatch_timer_unote_compute_missed(dt, now, prev): <<new record, prev + missed>>
-Missed(r, n) == IF n < r.tgt THEN 1                                   \* (unsigned wrap in C; only mutants get here)
-                ELSE IF r.iv >= INF THEN 1
-                ELSE (n - r.tgt) \div r.iv + (IF Mut = "missed_off" THEN 2 ELSE 1)
-ComputeMissed(r, n, prev) ==
-    LET missed == Missed(r, n)
-    IN <<IF r.iv < INF THEN [r EXCEPT !.tgt = @ + missed * r.iv] ELSE [r EXCEPT !.tgt = INF], prev + missed>>
+\* _dispatch_timer_unote_compute_missed: ComputeMissed(r, now, prev) of TimerLaws
 
 HasPending(r) == r.pcnt # 0 \/ r.pmark                               \* ds_pending_data != 0
 
@@ -311,9 +300,6 @@ TInvoke(t) ==
     \* every configuration published so far has been applied: what is pending must not stem from a replaced one
     /\ viol' = IF viol = "" /\ ~tm[t].canc /\ tm[t].pstale THEN "OnlyNewConfig" ELSE viol
     /\ UNCHANGED <<now, dirty, np, calls, mpc, mi, mdis, cnow, darm, kt, ken, kreg>>
-
-\* number of interval boundaries start, start+iv, ... that have passed at time n
-Boundaries(start, iv, n) == IF n < start THEN 0 ELSE IF iv >= INF THEN 1 ELSE (n - start) \div iv + 1
 
 \* _dispatch_source_latch_and_call: xchg ds_pending_data, _dispatch_source_timer_data, callout.
 \* The handler reads its clock (n) and dispatch_source_get_data (data): the property's laws are evaluated here.
